@@ -51,6 +51,9 @@ def rust_ty(t, lt, in_struct=False):
         return "Result<%s, %s>" % (rust_ty(t["ok"], lt), rust_ty(t["err"], lt))
     if k == "unit":
         return "()"
+    if k == "cb":
+        ret = "" if t["r"]["k"] == "unit" else " -> " + rust_ty(t["r"], lt)
+        return "impl Fn(%s)%s" % (", ".join(rust_ty(a, lt) for a in t["ps"]), ret)
     raise ValueError(k)
 
 
